@@ -262,6 +262,7 @@ type Obligation struct {
 	Output  string
 	Cover   bool // a cover (must be sat) rather than a proof goal
 	Known   *Known
+	Trivial bool // the goal is syntactically true (kept for its name, see obligeEnv)
 }
 
 type Script struct {
